@@ -1,7 +1,7 @@
 SPECIFICATION Spec
 CONSTANTS
   Pair = "AFEM"
-  MaxDepth = 5
+  MaxDepth = 4
   MaxCopies = 1
   MaxEdits = 1
   MaxReopens = 1
